@@ -434,3 +434,115 @@ contract(F, 'ContiguousBlockAllocator._find_available', props=('C16',),
          class_modules={'ContiguousBlockAllocator': F}, native=False,
          note='the free lists are a dictionary size -> set of blocks: an uninterpreted sequence of size keys with a '
               'ghost non-emptiness per key; which block of a set is chosen is bi.choice\'s (any of them)')
+
+
+# ---- free(addr): release and coalesce with both neighbours --------------------------------------------------
+# None or an address that holds no used block: nothing happens (a second free is harmless).  Otherwise the block
+# is marked free and booked; if the previous neighbour is free and joins, the JOINED block replaces both in the
+# table and in the free lists and becomes "the block" for the second step, which looks for the next neighbour
+# from the joined block's start and joins the joined block (not the stale original) with it.  The high-water
+# mark moves down to the joined block when the block at the mark was absorbed.
+def fr_getitem(eng, obj, idx, st, node):
+    if obj.k == 'obj' and obj.oid == 'self._array' and idx.k == 'int':
+        st.trace.append(('read-slot', idx.z))
+        return [(st, V('ref', cls='Blk', oid='block', extra={'maybe_none': z3.Bool('slot_is_empty')}))]
+    return None
+
+
+def fr_compare(eng, op, a, b, st, node):
+    import ast as _a
+    if isinstance(op, (_a.Is, _a.IsNot)):
+        for p, q in ((a, b), (b, a)):
+            if p.k == 'ref' and p.extra and 'maybe_none' in p.extra and q.k == 'none':
+                r = p.extra['maybe_none']
+                return z3.Not(r) if isinstance(op, _a.IsNot) else r
+            if p.k == 'int' and q.k == 'none':
+                r = z3.BoolVal(False)
+                return z3.Not(r) if isinstance(op, _a.IsNot) else r
+    return None
+
+
+def fr_found(which):
+    def pol(eng, selfv, args, kwargs, st, node):
+        r = V('ref', cls='Blk', oid=which, extra={'maybe_none': z3.Bool(which + '_is_none')})
+        st.trace.append(('find-' + which, args[0], r))
+        return [(st, r)]
+    return pol
+
+
+def fr_getattr(eng, obj, name, st, node):
+    if obj.k == 'ref' and obj.cls == 'Blk' and name == 'join':
+        def join(eng, args, kwargs, st, node, _o=obj):
+            n = len([e for e in st.trace if e[0] == 'join']) + 1
+            r = V('ref', cls='Blk', oid='joined%d' % n, extra={'maybe_none': z3.Bool('join%d_fails' % n)})
+            st.trace.append(('join', _o, args[0], r))
+            return [(st, r)]
+        return [(st, V('func', py=('spec', join)))]
+    return None
+
+
+def fr_setitem(eng, obj, idx, v, st, node):
+    if obj.k == 'obj' and obj.oid == 'self._array' and idx.k == 'int':
+        st.trace.append(('slot', idx.z, v))
+        return [('next', st)]
+    return None
+
+
+BLK = {'start': 'int', 'size': 'int', 'used': 'bool'}
+
+
+def free_post(c):
+    t = c.trace
+    s0, s1 = c.pre.self, c.post.self
+    joins = [e for e in t if e[0] == 'join']
+    fprev = [e for e in t if e[0] == 'find-prev']
+    fnext = [e for e in t if e[0] == 'find-next']
+    adds = [e[1] for e in t if e[0] == 'add-freed']
+    rems = [e[1] for e in t if e[0] == 'remove-freed']
+    slots = [e for e in t if e[0] == 'slot']
+    if not fprev:
+        # nothing to free: empty slot or a block that is not in use -> no effect at all
+        nothing = not joins and not fnext and not adds and not rems and not slots
+        why = z3.BoolVal(True) if c.kinds.get('addr') == 'none' else \
+            z3.Or(z3.Bool('slot_is_empty'), z3.Not(z3.Bool('block.used')))
+        return z3.And(z3.BoolVal(bool(nothing)), why, s1.top == s0.top)
+    if len(fprev) != 1 or len(fnext) != 1:
+        return z3.BoolVal(False)
+    blk_freed = c.st.objs.get('block', {}).get('used')
+    cl = [z3.BoolVal(blk_freed is not None and blk_freed.k == 'bool'), z3.Not(blk_freed.z) if blk_freed is not None else z3.BoolVal(False),
+          z3.BoolVal(any(a.oid == 'block' for a in adds))]                      # released and booked as free
+    j1 = [e for e in joins if e[1].oid == 'prev']
+    merged1 = j1[0][3] if j1 else None
+    # what "the block" is when the second step starts
+    cur = merged1 if (merged1 is not None and any(sl[2] is merged1 for sl in slots)) else None
+    nxt_arg = fnext[0][1]
+    j2 = [e for e in joins if e[1].oid == 'next']
+    if cur is not None:
+        # first step joined: the joined block stands in the table at its own start, the original slot is cleared,
+        # both parts leave the free lists - and the second step works on the JOINED block
+        cl += [z3.BoolVal(j1[0][2].oid == 'block'),
+               z3.BoolVal(any(r.oid == 'prev' for r in rems) and any(r.oid == 'block' for r in rems)),
+               nxt_arg.z == z3.Int('joined1.start') if nxt_arg.k == 'int' else z3.BoolVal(False)]
+        if j2:
+            cl.append(z3.BoolVal(j2[0][2] is merged1))
+    else:
+        cl += [nxt_arg.z == z3.Int('block.start') if nxt_arg.k == 'int' else z3.BoolVal(False)]
+        if j2:
+            cl.append(z3.BoolVal(j2[0][2].oid == 'block'))
+    return z3.And(*cl)
+
+
+contract(F, 'ContiguousBlockAllocator.free', props=('C16',),
+         params={'self': 'self', 'addr': ['none', 'int']},
+         ensures=[('no-effect-unless-a-used-block;released,booked,coalesced-with-the-joined-block-carried-over', free_post)],
+         modifies=[('self', 'top'), ('block', 'used')],
+         fields={'ContiguousBlockAllocator': {'_array': 'obj', 'addr_offset': 'int', 'top': 'int', 'size': 'int',
+                                              'pos': 'int', '_freed': 'obj'}, 'Blk': BLK},
+         hooks={'getitem': fr_getitem, 'compare': fr_compare, 'getattr': fr_getattr, 'setitem': fr_setitem},
+         policies={'ContiguousBlockAllocator._find_previous': fr_found('prev'),
+                   'ContiguousBlockAllocator._find_next': fr_found('next'),
+                   'ContiguousBlockAllocator._add_to_freed': freed_event('add-freed'),
+                   'ContiguousBlockAllocator._remove_from_freed': freed_event('remove-freed')},
+         class_modules={'ContiguousBlockAllocator': F, 'Blk': F}, native=False,
+         note='neighbour search and join are opaque here (their own contracts: _find_previous/_find_next/'
+              'ContiguousBlock.join); the obligation is the data flow of the joined block between the two steps')
